@@ -141,6 +141,10 @@ impl Sched {
         self.lock().threads.get(me).map(|t| t.credit).unwrap_or_default()
     }
 
+    pub fn tids_by_name(&self, name: &str) -> Vec<usize> {
+        self.lock().threads.iter().enumerate().filter(|(_, t)| t.name == name).map(|(i, _)| i).collect()
+    }
+
     pub fn tid_by_name(&self, name: &str) -> Option<usize> {
         self.lock().threads.iter().position(|t| t.name == name)
     }
